@@ -24,6 +24,9 @@ for fn in sorted(os.listdir(pkg)):
             else:
                 walk(ch, prefix)
     walk(tree, fn[:-3])
+    # module-level names of today's tree (a constant a later change adds is not an anchor of any rule)
+    out["%s:globals" % fn[:-3]] = sorted({t.id for st in tree.body if isinstance(st, (ast.Assign, ast.AnnAssign))
+                                         for t in (st.targets if isinstance(st, ast.Assign) else [st.target]) if isinstance(t, ast.Name)})
 here = os.path.dirname(os.path.dirname(os.path.abspath(__file__)))
 json.dump(out, open(os.path.join(here, "sa", "api_reference.json"), "w"), indent=0, sort_keys=True)
 print("api_reference.json: %d functions" % len(out))
